@@ -134,6 +134,8 @@ def build(desc):
         return sr.BlockVector(
             {py_charge(sym, e["c"]): fill((int(e["d"]),)) for e in desc["blocks"]}
         )
+    if kind == "dense":
+        return fill(tuple(int(d) for d in desc["shape"]))
     if kind == "scalar":
         return desc["v"][0] + (1j * desc["v"][1] if desc["v"][1] else 0)
 
